@@ -29,7 +29,9 @@ REPO = os.environ.get("VERIF_REPO", "/repo")
 BUILD = os.path.join(VERIF, ".build")
 SYMX_DIR = os.path.join(VERIF, "symx")
 KANI_DIR = os.path.join(VERIF, "kani")
-SYMX_BIN = os.path.join(BUILD, "symx", "release", "symx")
+# a scratch tree (VERIF_REPO) gets its own target directory so that concurrent runs cannot swap binaries
+SYMX_TARGET = os.path.join(BUILD, "symx" if REPO == "/repo" else "symx-alt-target")
+SYMX_BIN = os.path.join(SYMX_TARGET, "release", "symx")
 Z3_OLD = "/usr/bin/z3"
 Z3_NEW = shutil.which("z3-new") or "/usr/local/bin/z3-new"
 CVC5 = "/usr/bin/cvc5"
@@ -56,7 +58,7 @@ def cargo_env(extra=None):
 
 def build_symx():
     t0 = time.time()
-    env = cargo_env({"RUSTFLAGS": "--cfg yoanlcq_vek_verif", "CARGO_TARGET_DIR": os.path.join(BUILD, "symx")})
+    env = cargo_env({"RUSTFLAGS": "--cfg yoanlcq_vek_verif", "CARGO_TARGET_DIR": SYMX_TARGET})
     # the path dependency is /repo: cargo fingerprints its sources, so edits there are rebuilt
     toml = os.path.join(SYMX_DIR, "Cargo.toml")
     if REPO != "/repo":
@@ -300,6 +302,25 @@ def get_model(path, goal, timeout, pin=None):
     return None
 
 
+GRIDS = [
+    ["0", "1", "(- 1)", "(/ 1 2)", "(- (/ 1 2))", "2", "(- 2)"],
+    ["0", "1", "(- 1)", "(/ 1 2)", "(- (/ 1 2))", "2", "(- 2)", "(/ 3 5)", "(- (/ 3 5))", "(/ 4 5)", "(- (/ 4 5))", "(/ 5 4)", "(- (/ 5 4))", "(/ 5 3)", "(- (/ 5 3))", "3", "(- 3)", "(/ 1 4)", "(/ 3 4)", "(/ 1 3)", "(/ 2 3)"],
+]
+
+
+def grid_pin(path, grid):
+    """Assertions restricting every plain real input of the path to a small set of rationals."""
+    trig_vars = set(t.get("var") for t in path["trig"] if t.get("var") is not None)
+    pins = []
+    for n in path["inputs"]:
+        if n in trig_vars or n in ("PI", "EPS", "M"):
+            continue
+        if not re.search(r"\(declare-(fun|const) %s (\(\) )?Real\)" % re.escape(n), path["decls"]):
+            continue
+        pins.append("(or %s)" % " ".join("(= %s %s)" % (n, v) for v in grid))
+    return pins
+
+
 def inputs_from_model(path, vals):
     """Model values -> replay inputs (strings). Angles are recovered from their (sin, cos) pair."""
     import math
@@ -467,7 +488,22 @@ def run_symx(prop, tier, seed, only=None):
             if need_feas and not pth.get("variant"):
                 tasks.append((s["name"], pth, None, min(to, 10 if tier == "quick" else 60)))
     # phase 1: feasibility
+    sat_count = {}
+    deadline = t0 + float(os.environ.get("VERIF_DEADLINE", "1200" if tier == "quick" else "10800"))
+
     def job(t):
+        name, pth, g, to = t
+        if g is not None and (sat_count.get(name, 0) >= 3 or time.time() > deadline):
+            # this scenario already has refuted goals to replay (or the run's time budget is spent):
+            # remaining goals are not attempted and are reported as undecided
+            why = "skipped: scenario already has 3 refuted goals" if sat_count.get(name, 0) >= 3 else "skipped: run deadline"
+            return t, {"verdict": "unknown", "solver": None, "time": 0.0, "solvers": {"driver": why}, "sha": "", "trivial": False}
+        r0 = _job(t)
+        if g is not None and r0[1]["verdict"] == "sat":
+            sat_count[name] = sat_count.get(name, 0) + 1
+        return r0
+
+    def _job(t):
         name, pth, g, to = t
         sc = script_for(pth, g)
         if g is not None and g["kind"] == "goal" and (pth["pre"] or pth["pi"] or g.get("hyps")) and pth["logic"] in ("QF_NRA", "ALL"):
@@ -588,8 +624,23 @@ def symx_report(prop, tier, seed, index, results, feas, meta, known):
                 rep = try_reproduce(name, pth, g, None, seed, meta["rundir"], [e for e, _ in sc["extra"]])
         else:
             engines = engines or ["cn"]
-            vals = get_model(pth, g if g["kind"] != "nopanic" else None, min(to_for(sc, tier), 60))
-            rep = try_reproduce(name, pth, g, vals, seed, meta["rundir"], engines)
+            gg = g if g["kind"] != "nopanic" else None
+            vals = get_model(pth, gg, min(to_for(sc, tier), 60))
+            rep = try_reproduce(name, pth, g, vals, seed, meta["rundir"], engines, search=False)
+            if rep is None:
+                # the solver's witness may be algebraic (a branch boundary on an irrational surface): ask it
+                # again for a witness on a small rational grid, which the exact-rational replay can run
+                for grid in GRIDS:
+                    gvals = get_model(pth, gg, 20, pin=grid_pin(pth, grid))
+                    if gvals is None:
+                        continue
+                    rep = try_reproduce(name, pth, g, gvals, seed, meta["rundir"], engines, search=False)
+                    if rep:
+                        rep["how"] = "solver model on a rational grid"
+                        vals = gvals
+                        break
+            if rep is None:
+                rep = try_reproduce(name, pth, g, None, seed, meta["rundir"], engines)
         entry = {"key": key, "scenario": name, "goal": g["name"], "kind": g["kind"], "paths": [pth["path"]], "solver": r["solver"], "model": {k: str(v) for k, v in (vals or {}).items()}, "reproduced": rep is not None}
         seen_keys[key] = entry
         if rep is None:
